@@ -1145,7 +1145,7 @@ class quantized_linear(base_quantizer.BaseQuantizer):
       alpha = "'" + self.alpha + "'"
       flags.append("alpha=" + alpha)
     elif self.alpha is not None:
-      alpha = np.array(alpha)
+      alpha = np.array(self.alpha)
       flags.append("alpha=" + str(alpha))
     if self.use_stochastic_rounding:
       flags.append("use_stochastic_rounding=" +
